@@ -323,7 +323,7 @@ func genFaultQueryRisky(t *rapid.T, root string, asyncOK, riskyArgs bool) faultQ
 	for attempt := 0; ; attempt++ {
 		b := &fqBuilder{t: t, root: root, asyncOK: asyncOK, riskyArgs: riskyArgs}
 		shape := rapid.SampledFrom([]string{"simple", "derived", "cte", "cte_chain", "group_having", "union", "join", "modifiers", "star", "nested_sub",
-			"cte_union", "derived_with", "join_derived_with", "cte_direct", "join_on_func", "selector_cols", "selector_from", "cte_twice", "derived_in_join", "lazy_cte", "multi_dim"}).Draw(t, "shape")
+			"cte_union", "derived_with", "join_derived_with", "cte_direct", "join_on_func", "selector_cols", "selector_from", "cte_twice", "derived_in_join", "lazy_cte", "multi_dim", "join_on_await"}).Draw(t, "shape")
 		var q string
 		open := false
 		switch shape {
@@ -391,6 +391,12 @@ func genFaultQueryRisky(t *rapid.T, root string, asyncOK, riskyArgs bool) faultQ
 		case "cte_direct":
 			s := b.next("cte_read_through_selector")
 			q = fmt.Sprintf("WITH c AS (SELECT id, n, fid(%d, a) AS x%d FROM %s%s) SELECT v FROM `c.n`", s, s, T, b.where("", true))
+		case "join_on_await":
+			// ON is evaluated while New builds the query: what an AWAIT in it defers is owed by every Exec of the query
+			jt := rapid.SampledFrom([]string{"JOIN", "LEFT JOIN", "STRAIGHT_JOIN"}).Draw(t, "jat")
+			s := b.next("awaited_in_join_on")
+			q = fmt.Sprintf("SELECT x.id AS id, y.id AS yid FROM %s x %s %s y ON x.id = y.id OR AWAIT(fid(%d, x.id)) IS NULL", T, jt, U, s)
+			open = true
 		case "join_on_func":
 			jt := rapid.SampledFrom([]string{"JOIN", "LEFT JOIN", "RIGHT JOIN", "PARALLEL JOIN", "PARALLEL LEFT JOIN", "STRAIGHT_JOIN"}).Draw(t, "jt")
 			op := rapid.SampledFrom([]string{"<=", "<", ">=", "!=", "="}).Draw(t, "jop")
